@@ -117,7 +117,7 @@ def parseLine (j : Json) : Except String (Line × MarkerStyle) :=
   | .error _ => do
     let code ← getStr j "code"
     let hs ← (← getArr j "hints").toList.mapM parseHint
-    pure (.code { code := code.toList, pad := getNatD j "pad" 0, hints := hs }, parseMarker j)
+    pure (.code { code := code.toList, pad := getNatD j "pad" 1, hints := hs }, parseMarker j)
 
 def allLabels (d : Decorated) : List Str :=
   dedup (((codeLines d).flatMap fun c => c.hints.map (·.label)) ++ wholeLabels d)
